@@ -42,6 +42,9 @@ type Link struct {
 	sutClosedAt   time.Time
 	notify        chan struct{}
 	rdl           time.Time
+	wdl           time.Time
+	stalled       bool
+	wnotify       chan struct{}
 	name          string
 	// OnWrite, when set, is called synchronously (outside the link's lock) with
 	// a copy of everything the system under test writes.
@@ -53,12 +56,12 @@ type Link struct {
 // NewDatagram makes a link that preserves message boundaries (UDP-like: the
 // sender never blocks, a read returns one whole datagram).
 func NewDatagram(name string) *Link {
-	return &Link{datagram: true, notify: make(chan struct{}, 1), name: name}
+	return &Link{datagram: true, notify: make(chan struct{}, 1), wnotify: make(chan struct{}, 1), name: name}
 }
 
 // NewStream makes a byte-stream link with an unbounded buffer (TCP-like).
 func NewStream(name string) *Link {
-	return &Link{notify: make(chan struct{}, 1), name: name}
+	return &Link{notify: make(chan struct{}, 1), wnotify: make(chan struct{}, 1), name: name}
 }
 
 func (l *Link) wake() {
@@ -82,6 +85,19 @@ func (l *Link) Close() {
 	l.harnessClosed = true
 	l.mu.Unlock()
 	l.wake()
+}
+
+// SetStalled makes the peer stop reading (a full socket buffer): while stalled, the
+// system's writes block until their write deadline and then fail with a timeout, as
+// writes to a TCP connection whose receiver has stopped reading do.
+func (l *Link) SetStalled(on bool) {
+	l.mu.Lock()
+	l.stalled = on
+	l.mu.Unlock()
+	select {
+	case l.wnotify <- struct{}{}:
+	default:
+	}
 }
 
 // Take returns what the system wrote since the previous Take.
@@ -165,7 +181,29 @@ func (c *conn) Read(p []byte) (int, error) {
 func (c *conn) Write(b []byte) (int, error) {
 	l := c.l
 	cp := append([]byte(nil), b...)
-	l.mu.Lock()
+	for {
+		l.mu.Lock()
+		if !l.stalled || l.sutClosed || l.FailWrites != nil {
+			break // (lock held)
+		}
+		dl := l.wdl
+		l.mu.Unlock()
+		if dl.IsZero() {
+			<-l.wnotify
+			continue
+		}
+		d := time.Until(dl)
+		if d <= 0 {
+			return 0, ErrTimeout
+		}
+		tm := time.NewTimer(d)
+		select {
+		case <-l.wnotify:
+			tm.Stop()
+		case <-tm.C:
+			return 0, ErrTimeout
+		}
+	}
 	if l.sutClosed {
 		l.mu.Unlock()
 		return 0, net.ErrClosed
@@ -193,6 +231,10 @@ func (c *conn) Close() error {
 	}
 	l.mu.Unlock()
 	l.wake()
+	select {
+	case l.wnotify <- struct{}{}:
+	default:
+	}
 	return nil
 }
 
@@ -201,8 +243,19 @@ func (c *conn) RemoteAddr() net.Addr { return Addr(c.l.name + ":peer") }
 func (c *conn) SetDeadline(t time.Time) error {
 	c.l.mu.Lock()
 	c.l.rdl = t
+	c.l.wdl = t
 	c.l.mu.Unlock()
 	return nil
 }
-func (c *conn) SetReadDeadline(t time.Time) error  { return c.SetDeadline(t) }
-func (c *conn) SetWriteDeadline(t time.Time) error { return nil }
+func (c *conn) SetReadDeadline(t time.Time) error {
+	c.l.mu.Lock()
+	c.l.rdl = t
+	c.l.mu.Unlock()
+	return nil
+}
+func (c *conn) SetWriteDeadline(t time.Time) error {
+	c.l.mu.Lock()
+	c.l.wdl = t
+	c.l.mu.Unlock()
+	return nil
+}
